@@ -22,7 +22,7 @@ THEOREMS = [{'name': f'Props.C03.{n}', 'module': M} for n in [
 # the model functions these theorems are about are EQUAL to the functions translated from /repo's source (Gen/CoreFuncs.lean)
 THEOREMS += [{'name': f'Props.CoreFuncs.{n}', 'module': 'MorphKgc.Props.CoreFuncs'} for n in ['inv_eq', 'refs_eq']]
 # the scan loops of mapping_partitioner.py, translated from /repo (Gen/PartFuncs.lean), are equal to Model.scanStep / invOf
-THEOREMS += [{'name': f'Props.PartFuncs.{n}', 'module': 'MorphKgc.Props.PartFuncs'} for n in ['partial_S_eq', 'partial_P_eq', 'partial_O_eq', 'partial_G_eq', 'maximal_S_eq', 'maximal_P_eq', 'maximal_O_eq', 'maximal_G_eq', 'maximalPass_eq', 'term_invariants_step_eq', 'sort_keys', 'keyNames_cells', 'initial_scalars', 'enforce_shapes']]
+THEOREMS += [{'name': f'Props.PartFuncs.{n}', 'module': 'MorphKgc.Props.PartFuncs'} for n in ['partial_S_eq', 'partial_P_eq', 'partial_O_eq', 'partial_G_eq', 'maximal_S_eq', 'maximal_P_eq', 'maximal_O_eq', 'maximal_G_eq', 'maximalPass_eq', 'term_invariants_step_eq', 'sort_keys', 'keyNames_cells', 'initial_scalars', 'enforce_shapes', 'genPartialStep_eq', 'partialPass_is_translated_loop', 'genMaximalStep_eq', 'maximalPass_is_translated_loop']]
 RULE = ('generated documents (term maps with equal / nested / interleaved constant prefixes, several graph maps, typed and tagged literals, '
         'blank nodes) x tables whose cells are drawn from a Unicode alphabet AND from values assembled out of the mapping\'s own constants '
         '(data the grouping never saw); each mapping group is materialized separately in-process (the function the CLI workers run) and all '
